@@ -20,6 +20,13 @@ type builtinFunc func(i *Interpreter, args []Expr, env *Environment) (interface{
 // Initialized in init() to avoid initialization cycle with evaluateFunctionCall.
 var builtinFuncs map[string]builtinFunc
 
+// HasBuiltin reports whether the interpreter provides a built-in function of
+// that name.
+func HasBuiltin(name string) bool {
+	_, ok := builtinFuncs[name]
+	return ok
+}
+
 func init() {
 	builtinFuncs = map[string]builtinFunc{
 		"time.now":   builtinTimeNow,
